@@ -221,6 +221,8 @@ struct Dumper {
       } else O["callee"] = "<indirect>";
       O["nargs"] = (int64_t)CB->arg_size();
     }
+    if (auto *IV = dyn_cast<InsertValueInst>(&I)) { json::Array A; for (unsigned x : IV->indices()) A.push_back((int64_t)x); O["indices"] = std::move(A); }
+    if (auto *EV = dyn_cast<ExtractValueInst>(&I)) { json::Array A; for (unsigned x : EV->indices()) A.push_back((int64_t)x); O["indices"] = std::move(A); }
     if (auto *SW = dyn_cast<SwitchInst>(&I)) {
       json::Array Cs;
       for (auto &C : SW->cases()) {
